@@ -912,3 +912,35 @@ Proof.
   apply (C15_calls_f_authentic sfH sfH_len sfH_wf D02 8 msg2 (firstn 50 (stream sfH D02 8 msg2)) 16384 sizes sfH_state);
     [discriminate|exact sfH_opens].
 Qed.
+
+(* ==== NewDecoder decides from the first eight bytes ====================================== *)
+(* Whatever follows the 8-byte record-size field influences neither whether the stream is refused nor
+   the decoder's initial state (beyond being what remains to be read): the model's side of "a stream
+   with a refused record size is refused before any record data is read".  That the Go code takes
+   exactly these 8 bytes from a plain source (0 when the digest header does not parse) is observed
+   by the mi_new_consumed cases of the correspondence run. *)
+From WP Require Proofs.MiceHeaderOnly.
+
+Theorem C15_new_decoder_header_only :
+  forall (H : bytes -> bytes) (d : draft) (h x y dg : bytes) (m : N),
+    lenN h = 8 ->
+    match new_decoder H d (h ++ x) dg m, new_decoder H d (h ++ y) dg m with
+    | Ok a, Ok b => d_enc a = d_enc b /\ d_rs a = d_rs b /\ d_next a = d_next b /\ d_out a = d_out b
+                    /\ d_r a = x /\ d_r b = y
+    | Err, Err => True
+    | _, _ => False
+    end.
+Proof. exact MiceHeaderOnly.new_decoder_header_only. Qed.
+Print Assumptions C15_new_decoder_header_only.
+
+Theorem C15_refusal_header_only :
+  forall (H : bytes -> bytes) (d : draft) (h x y dg : bytes) (m : N),
+    lenN h = 8 -> (new_decoder H d (h ++ x) dg m = Err <-> new_decoder H d (h ++ y) dg m = Err).
+Proof. exact MiceHeaderOnly.new_decoder_refusal_header_only. Qed.
+Print Assumptions C15_refusal_header_only.
+
+Example ex_header_only :
+  new_decoder sfH D02 ([0; 0; 0; 0; 0; 0; 64; 1] ++ [1; 2; 3]) (digest_header sfH D02 8 msg2) 16384 = Err /\
+  new_decoder sfH D02 ([0; 0; 0; 0; 0; 0; 64; 1] ++ []) (digest_header sfH D02 8 msg2) 16384 = Err /\
+  lenN [0; 0; 0; 0; 0; 0; 64; 1] = 8.
+Proof. vm_compute. repeat split. Qed.
